@@ -363,3 +363,193 @@ def checks(tier):
                       "stored before their base; every choice of the first object accessed; real pack and index files",
                outside="chains deeper than 3; thin packs (external bases); compression levels", tiers=q),
     ]
+
+
+# ---------------------------------------------------------------------------------------------
+# (g) entries whose deflate stream ends at / next to the 64 KiB slice boundary of the mmap reader: CRCs and contents
+_b02g = checks
+
+
+_PAYLOADS = {}
+
+
+def _payload_for_stream_len(want, level):
+    """blob payload whose zlib stream (at this level) is exactly `want` bytes long (deterministic pseudo-random content)"""
+    import zlib as _z
+    import hashlib as _h
+    if (want, level) in _PAYLOADS:
+        return _PAYLOADS[(want, level)]
+    seed = b"".join(_h.sha256(b"%d" % i).digest() for i in range(want // 32 + 64))
+    f = lambda n: len(_z.compress(seed[:n], level))
+    lo, hi = 0, len(seed)
+    while hi - lo > 1:                     # incompressible data: the stream length grows with the payload length
+        mid = (lo + hi) // 2
+        if f(mid) < want:
+            lo = mid
+        else:
+            hi = mid
+    res = None
+    for n in range(max(0, hi - 24), hi + 24):
+        if f(n) == want:
+            res = seed[:n]
+            break
+    _PAYLOADS[(want, level)] = res
+    return res
+
+
+def h_zlib_slice_boundary(eng, level=0, mult=1):
+    import binascii
+    import zlib as _z
+    from dulwich.objects import Blob
+    from dulwich.pack import write_pack_objects, PackData, load_pack_index, Pack
+    from dulwich.repo import Repo
+    from vf.interpose import scratch
+    delta = eng.choice("stream_length_minus_boundary_plus_2", 5) - 2
+    payload = _payload_for_stream_len(65536 * mult + delta, level)
+    eng.assume(payload is not None)
+    big = Blob.from_string(payload)
+    small = Blob.from_string(b"small\n")
+    order = eng.choice("big_first", 2)
+    objs = [big, small] if order else [small, big]
+    d = scratch("c02g")
+    try:
+        how = eng.choice("index_built_by", 2)
+        if how == 0:
+            path = _os.path.join(d, "p.pack")
+            with open(path, "wb") as f:
+                write_pack_objects(f.write, [(o, None) for o in objs], compression_level=level, object_format=DEFAULT_OBJECT_FORMAT)
+            pd = PackData(path, object_format=DEFAULT_OBJECT_FORMAT)
+            pd.create_index(_os.path.join(d, "p.idx"))
+            pd.close()
+            stem = _os.path.join(d, "p")
+        else:
+            r = Repo.init_bare(d)
+            r.object_store.pack_compression_level = level
+            r.object_store.add_objects([(o, None) for o in objs])
+            pdir = _os.path.join(d, "objects", "pack")
+            stem = _os.path.join(pdir, [f for f in _os.listdir(pdir) if f.endswith(".pack")][0][:-5])
+            r.close()
+        with open(stem + ".pack", "rb") as f:
+            raw = f.read()
+        idx = load_pack_index(stem + ".idx", DEFAULT_OBJECT_FORMAT)
+        ents = sorted((off, sha, crc) for sha, off, crc in idx.iterentries())
+        ends = [e[0] for e in ents[1:]] + [len(raw) - 20]
+        tag = f"[level {level}, stream length 65536*{mult}{delta:+d}, big {'first' if order else 'last'}, index by {'PackData.create_index' if how == 0 else 'add_objects'}]"
+        for (off, sha, crc), end in zip(ents, ends):
+            eng.prove(crc == (binascii.crc32(raw[off:end]) & 0xFFFFFFFF),
+                      f"{tag} the CRC in the index equals the CRC of the entry's bytes in the pack (entry at {off}, {end - off} bytes)")
+        idx.close()
+        p = Pack(stem, object_format=DEFAULT_OBJECT_FORMAT)
+        try:
+            for o in objs:
+                t, data = p.get_raw(o.id)
+                eng.prove(data == o.as_raw_string(), f"{tag} object reads back by random access")
+            got = {o.id: o.as_raw_string() for o in p.iterobjects()}
+            eng.prove(got == {o.id: o.as_raw_string() for o in objs}, f"{tag} objects read back by iteration")
+            p.check()
+        finally:
+            p.close()
+    finally:
+        _sh.rmtree(d, ignore_errors=True)
+
+
+def checks(tier):
+    q = ("quick", "thorough")
+    return _b02g(tier) + [
+        KCheck("C02g.zlib_slice_boundary", h_zlib_slice_boundary, parts=[{"level": l, "mult": m} for l in (0, -1) for m in (1, 2)],
+               encoded=["dulwich.pack.read_zlib_chunks_at/unpack_object_at", "dulwich.pack.PackData.create_index/PackIndexer",
+                        "dulwich.object_store.DiskObjectStore.add_objects", "dulwich.pack.Pack.get_raw/iterobjects/check"],
+               bounds="a blob whose deflate stream is 65536*m-2 .. 65536*m+2 bytes long (m = 1, 2; compression levels 0 and default), "
+                      "first or last in a 2-object pack, index built by PackData.create_index or by add_objects",
+               outside="other stream lengths; streams over 128 KiB", tiers=q),
+    ]
+
+
+# ---------------------------------------------------------------------------------------------
+# (h) packs written for a subset of a delta-compressed store, with delta reuse: self-contained up to the receiver's haves
+_b02h = checks
+
+
+def h_subset_reuse(eng):
+    """a store whose only pack holds three versions of a blob as a delta chain; a pack is written (reuse_deltas on/off)
+    for every non-empty subset of the versions, with every subset of the remaining ones declared as already held by the
+    receiver: the new pack reads back (random access, iteration) on a receiver that holds exactly the declared objects"""
+    from dulwich.objects import Blob
+    from dulwich.pack import deltify_pack_objects, write_pack_from_container, Pack, PackData, REF_DELTA, OFS_DELTA
+    from dulwich.object_store import DiskObjectStore
+    from vf.interpose import scratch
+    lines = [b"line %04d: the quick brown fox jumps over the lazy dog\n" % i for i in range(120)]
+    vs = [Blob.from_string(b"".join(lines[:n])) for n in (60, 90, 120)]
+    d, d2 = scratch("c02h"), scratch("c02i")
+    try:
+        src = DiskObjectStore.init(d)
+        records = list(deltify_pack_objects(iter([(o, None) for o in vs])))
+        src.add_pack_data(len(records), iter(records))
+        (pack,) = src.packs
+        ndelta = sum(1 for o in vs if pack.get_unpacked_object(o.id, convert_ofs_delta=False).pack_type_num in (REF_DELTA, OFS_DELTA))
+        eng.prove(ndelta >= 1, "set-up: the source pack stores at least one version as a delta")
+        sel = [bool(eng.bool(f"send_v{i}")) for i in range(3)]
+        eng.assume(any(sel))
+        have = [(not sel[i]) and bool(eng.bool(f"receiver_has_v{i}")) for i in range(3)]
+        reuse = bool(eng.bool("reuse_deltas"))
+        ids = [(vs[i].id, None) for i in range(3) if sel[i]]
+        other = {vs[i].id for i in range(3) if have[i]}
+        path = _os.path.join(d2, "out.pack")
+        with open(path, "wb") as f:
+            write_pack_from_container(f.write, src, ids, DEFAULT_OBJECT_FORMAT, reuse_deltas=reuse, other_haves=other)
+        src.close()
+        tag = f"[send {[i for i in range(3) if sel[i]]}, receiver has {[i for i in range(3) if have[i]]}, reuse_deltas={reuse}]"
+        # the receiver: a store holding exactly the declared objects, then the new pack (thin w.r.t. those only)
+        dst = DiskObjectStore.init(_os.path.join(d2, "dst"))
+        for i in range(3):
+            if have[i]:
+                dst.add_object(vs[i])
+        try:
+            with open(path, "rb") as f:
+                dst.add_thin_pack(f.read, None)
+        except Exception as e:
+            eng.fail(f"{tag} the receiver cannot ingest the pack: {type(e).__name__}: {e}")
+            return
+        for i in range(3):
+            if sel[i] or have[i]:
+                try:
+                    t, data = dst.get_raw(vs[i].id)
+                except Exception as e:
+                    eng.fail(f"{tag} version {i} unreadable on the receiver: {type(e).__name__}: {e}")
+                    continue
+                eng.prove(data == vs[i].as_raw_string(), f"{tag} version {i} byte-identical on the receiver")
+        dst.close()
+        if not other:
+            # nothing was declared: the pack must be readable on its own
+            pdat = PackData(path, object_format=DEFAULT_OBJECT_FORMAT)
+            try:
+                pdat.create_index(_os.path.join(d2, "out.idx"))
+            except Exception as e:
+                eng.fail(f"{tag} the pack is not self-contained: {type(e).__name__}: {e}")
+                return
+            finally:
+                pdat.close()
+            p = Pack(_os.path.join(d2, "out"), object_format=DEFAULT_OBJECT_FORMAT)
+            try:
+                got = {o.id: o.as_raw_string() for o in p.iterobjects()}
+                eng.prove(got == {vs[i].id: vs[i].as_raw_string() for i in range(3) if sel[i]}, f"{tag} iteration yields exactly the sent objects")
+                for i in range(3):
+                    if sel[i]:
+                        eng.prove(p.get_raw(vs[i].id)[1] == vs[i].as_raw_string(), f"{tag} random access to version {i}")
+            finally:
+                p.close()
+    finally:
+        _sh.rmtree(d, ignore_errors=True)
+        _sh.rmtree(d2, ignore_errors=True)
+
+
+def checks(tier):
+    q = ("quick", "thorough")
+    return _b02h(tier) + [
+        KCheck("C02h.subset_reuse", h_subset_reuse,
+               encoded=["dulwich.pack.write_pack_from_container/generate_unpacked_objects/find_reusable_deltas", "dulwich.pack.deltify_pack_objects",
+                        "dulwich.object_store.DiskObjectStore.add_pack_data/add_thin_pack", "dulwich.pack.PackData.create_index"],
+               bounds="a source pack holding 3 versions of a blob as deltas; every non-empty subset sent, every subset of the others "
+                      "declared as held by the receiver, delta reuse on/off; receiver = store with exactly the declared objects",
+               outside="longer chains; commits/trees; bitmaps", tiers=q),
+    ]
